@@ -214,6 +214,7 @@ def run(model: Model, rep: Report) -> None:
 
     # ---------------------------------------------------------------- R7
     _lzw(model, rep)
+    _simple_decoders(model, rep)
     # ---------------------------------------------------------------- R6
     r6 = rep.rule("C03-R6", "ORDER", "payload delimitation: starts after the line holding `stream`, has /Length bytes, untouched outside fallback mode", 4)
     dk = model.func("pdfminer.pdfparser.PDFParser.do_keyword")
@@ -324,3 +325,63 @@ def _lzw(model: Model, rep: Report) -> None:
     rb = model.func("pdfminer.lzw.LZWDecoder.readbits")
     s2 = "".join(unparse(rb.node).split())
     r7.check("v=v<<bits|self.buff>>r-bits&(1<<bits)-1" in s2 and "v=v<<r|self.buff&(1<<r)-1" in s2 and "r=8-self.bpos" in s2, site(rb), rb.qualname, "codes are read most significant bit first across byte boundaries", why="bit reader changed")
+
+
+def _simple_decoders(model: Model, rep: Report) -> None:
+    """C03-R8: the byte-oriented decoders' constants and case split (ISO 32000-1 7.4.2, 7.4.3, 7.4.5)."""
+    from ..fold import Folder, Regex, Unfoldable
+
+    r8 = rep.rule("C03-R8", "TABLE", "RunLength: 0..127 copies length+1 bytes, 129..255 repeats one byte 257-length times, 128 (or exhaustion) ends; ASCIIHex: white space ignored, `>` ends, odd digit padded with 0; ASCII85 markers are stripped only at the ends", 7)
+    rl = model.func("pdfminer.runlength.rldecode")
+    se = SymEval(opaque_ok=True)
+    L = Poly.var("length")
+    tests = {"".join(unparse(n.test).split()): n for n in walk_no_nested(rl.node) if isinstance(n, ast.If)}
+    # EOD
+    eod = [n for t, n in tests.items() if t in ("length==128", "128==length")]
+    nxt = [c for c in walk_no_nested(rl.node) if isinstance(c, ast.Call) and (dotted(c.func) or "") == "next" and len(c.args) == 2]
+    r8.check(len(eod) == 1 and any(isinstance(s, ast.Break) for s in eod[0].body) and len(nxt) == 1 and isinstance(nxt[0].args[1], ast.Constant) and nxt[0].args[1].value == 128, site(rl), rl.qualname, "length byte 128 - and the end of the data - stop the decoder", why=f"tests: {sorted(tests)}")
+    lit = [n for t, n in tests.items() if t in ("0<=length<128", "length<128", "0<=lengthandlength<128", "length<=127", "0<=length<=127")]
+    ok = False
+    why = f"tests: {sorted(tests)}"
+    if len(lit) == 1:
+        rng = [c for c in walk_no_nested(lit[0]) if isinstance(c, ast.Call) and (dotted(c.func) or "") == "range" and len(c.args) == 1]
+        try:
+            ok = len(rng) == 1 and se.expr(rng[0].args[0], {}) == L + Poly.const(1)
+            why = f"copies range({unparse(rng[0].args[0]) if rng else '?'}) bytes"
+        except NotPolynomial as ex:
+            why = str(ex)
+    r8.check(ok, site(rl), rl.qualname, "a length byte of 0..127 copies the next length + 1 bytes", why=why)
+    run = [n for t, n in tests.items() if t in ("length>128", "128<length", "length>=129", "129<=length")]
+    ok = False
+    if len(run) == 1:
+        muls = [b for b in walk_no_nested(run[0]) if isinstance(b, ast.BinOp) and isinstance(b.op, ast.Mult)]
+        for b in muls:
+            for side in (b.left, b.right):
+                try:
+                    if se.expr(side, {}) == Poly.const(257) - L:
+                        ok = True
+                except NotPolynomial:
+                    pass
+    r8.check(ok, site(rl), rl.qualname, "a length byte of 129..255 repeats the next byte 257 - length times", why=f"tests: {sorted(tests)}")
+    # ASCIIHex
+    ah = model.func("pdfminer.ascii85.asciihexdecode")
+    s = "".join(unparse(ah.node).split())
+    mod = model.module("pdfminer.ascii85")
+    fo = Folder(model)
+    try:
+        bws = fo.fold(mod, mod.assigns["bws_re"])
+        ws_ok = isinstance(bws, Regex) and bws.byteset() >= frozenset({0x09, 0x0A, 0x0C, 0x0D, 0x20}) and not (bws.byteset() & frozenset(b"0123456789abcdefABCDEF>"))
+    except (KeyError, Unfoldable):
+        ws_ok = False
+    r8.check(ws_ok and "data=bws_re.sub(b'',data)" in s, site(ah), ah.qualname, "white space between the digits is dropped (and nothing else)", why="white-space class changed")
+    r8.check("idx=data.find(b'>')" in s and "ifidx!=-1:data=data[:idx]ifidx%2==1:data+=b'0'" in s and s.endswith("returnunhexlify(data)"), site(ah), ah.qualname, "`>` ends the data; an odd number of digits is completed with 0", why="EOD / padding changed")
+    # ASCII85 markers
+    a85 = model.func("pdfminer.ascii85.ascii85decode")
+    try:
+        st, en = fo.fold(mod, mod.assigns["start_re"]), fo.fold(mod, mod.assigns["end_re"])
+        pst, pen = (st.pattern if isinstance(st, Regex) else b""), (en.pattern if isinstance(en, Regex) else b"")
+    except (KeyError, Unfoldable):
+        pst = pen = b""
+    r8.check(pst.startswith(b"^") and b"~" in pst and pen.endswith(b"$") and b"~" in pen, site(a85), a85.qualname, "the <~ and ~> markers are removed only at the very start / end and only together with a `~`", why=f"start {pst!r} end {pen!r}: an unanchored pattern would eat `<`/`>`/`~`-adjacent digits inside the data")
+    s2 = "".join(unparse(a85.node).split())
+    r8.check("data=start_re.sub(b'',data)data=end_re.sub(b'',data)returna85decode(data)" in s2, site(a85), a85.qualname, "markers stripped, then base-85 decoded (5 digits -> 4 bytes, z shorthand, partial group) by base64.a85decode", why="changed")
